@@ -37,12 +37,14 @@ BOX_FIELDS = ("std::boxed::Box", "std::ptr::Unique", "std::ptr::NonNull")
 class Sym(object):
     """Def-use terms for the locals of one MIR body."""
 
-    def __init__(self, body, roles, crate=None, allowed=None, depth=0):
+    def __init__(self, body, roles, crate=None, allowed=None, depth=0, choice=None):
+        self.choice = choice or {}
         self.body = body
         self.blocks = body["mir"]["blocks"]
         self.roles = roles
         self.crate = crate
         self.depth = depth
+        self._allowed = allowed
         self.defs = {}
         for bi, bb in enumerate(self.blocks):
             if bb["cleanup"] or (allowed is not None and bi not in allowed):
@@ -90,6 +92,10 @@ class Sym(object):
         return t
 
     def elem(self, it):
+        if isinstance(it, tuple) and it[:2] == ("agg", "array"):
+            if it in self.choice:
+                return it[2][self.choice[it]]      # this evaluator follows one element of a literal array
+            return phi(list(it[2])) if it[2] else ("elem", it)
         if not (isinstance(it, tuple) and len(it) == 4 and it[0] == "call"):
             if isinstance(it, tuple) and it and it[0] == "phi":
                 return phi([self.elem(x) for x in it[1]])
@@ -142,6 +148,180 @@ class Sym(object):
                     if not (v[0] == "agg" and v[1].startswith("closure:")):
                         out.append(self.elem(v) if c.endswith("Extend>::extend") or c.endswith("insert_ranges") else v)
         return out
+
+    # -- guard refinement: inside `match tag { A => .., B => .. }` where (tag, x) is an element of a
+    #    literal array `[(A, xa), (B, xb)]` being iterated, x is xa in the first arm and xb in the second
+    def dominators(self):
+        if not hasattr(self, "_dom"):
+            _loops, self._dom, _preds = cfg.natural_loops(self.blocks)
+        return self._dom
+
+    def variant_index(self, kind):
+        if not kind.startswith("adt:") or self.crate is None:
+            return None
+        _a, path, variant = kind.split(":", 2)[0], kind[4:].rsplit(":", 1)[0], kind.rsplit(":", 1)[1]
+        adt = self.crate.adt(path)
+        if adt is None:
+            return None
+        names = [v["name"] for v in adt["variants"]]
+        return names.index(variant) if variant in names else None
+
+    def refine(self, block, term):
+        arrs = []
+        contains(term, lambda y: arrs.append(y[1]) if (isinstance(y, tuple) and len(y) == 2 and y[0] == "elem"
+                                                       and isinstance(y[1], tuple) and y[1][:2] == ("agg", "array")) else False)
+        if not arrs:
+            return term
+        dom = self.dominators()
+        doms = dom.get(block, ())
+        for arr in set(arrs):
+            feasible = set(range(len(arr[2])))
+            for sb in doms:
+                t = self.blocks[sb]["term"]
+                if t["k"] != "switch" or sb == block:
+                    continue
+                op = self.operand(t["d"])
+                if op[0] != "discr" or not contains(op[1], lambda y: y == ("elem", arr)):
+                    continue
+                edges = [(v, tg) for v, tg in t["arms"]] + [(None, t["else"])]
+                taken = [(v, tg) for v, tg in edges if tg in doms and tg != sb]
+                if len(taken) != 1:
+                    continue
+                v_taken = taken[0][0]
+                arm_vals = {v for v, _ in t["arms"]}
+                for j in list(feasible):
+                    tj = subst(op[1], ("elem", arr), arr[2][j])
+                    idx = self.variant_index(tj[1]) if tj[0] == "agg" else None
+                    if idx is None:
+                        continue
+                    ok = (idx == v_taken) if v_taken is not None else (idx not in arm_vals)
+                    if not ok:
+                        feasible.discard(j)
+            if feasible and len(feasible) < len(arr[2]):
+                term = subst(term, ("elem", arr), phi([arr[2][j] for j in sorted(feasible)]))
+        return term
+
+    def calls_mut(self):
+        """(block, callee, argument terms, first argument is a `&mut`) for every call of this body."""
+        if not hasattr(self, "_calls_mut"):
+            out = []
+            locals_ = self.body["mir"]["locals"]
+            for bi, bb in enumerate(self.blocks):
+                if bb["cleanup"] or bi not in self.allowed_blocks():
+                    continue
+                t = bb["term"]
+                if t["k"] != "call":
+                    continue
+                c = norm_path(t.get("resp") or t["f"].get("path")) or "?"
+                a0mut = False
+                if t["args"]:
+                    q = t["args"][0].get("move") or t["args"][0].get("copy")
+                    if q is not None and not q["p"]:
+                        a0mut = str(locals_[q["l"]]).startswith("&mut")
+                out.append((bi, c, tuple(self.operand(a) for a in t["args"]), a0mut))
+            self._calls_mut = out
+        return self._calls_mut
+
+    def allowed_blocks(self):
+        return self._allowed if self._allowed is not None else range(len(self.blocks))
+
+    def closure_children(self):
+        """Child evaluators for the closures created in this body. A closure handed to an iterator
+        adaptor (`map`, `filter_map`, `filter`, `for_each`, `any`, ..) gets its argument bound to an
+        element of the adaptor's source."""
+        out = []
+        for clo in closure_terms(self):
+            bound = []
+            for bi, c, a, m in self.calls_mut():
+                if len(a) == 2 and a[1] == clo and _re.search(
+                        r"Iterator>?::(map|filter_map|filter|for_each|any|all|find|find_map|position|flat_map|"
+                        r"take_while|skip_while|inspect)$", c):
+                    bound.append(self.elem(a[0]))
+            cb = self.crate.body(norm_path(clo[1][len("closure:"):])) if self.crate is not None else None
+            if cb is None or self.depth >= 4:
+                continue
+            for arg in (bound or [None]):
+                roles = {1: clo}
+                if arg is not None:
+                    roles[2] = arg
+                out.append((clo, Sym(cb, roles, crate=self.crate, depth=self.depth + 1)))
+        return out
+
+    def deep_calls_mut(self, _seen=None):
+        """calls_mut() plus the calls made inside closures created in this body, their captures bound to
+        this body's terms. Block ids of closure calls are ("clo", def, block)."""
+        _seen = set() if _seen is None else _seen
+        out = list(self.calls_mut())
+        for clo, ch in self.closure_children():
+            key = (clo, ch.roles.get(2))
+            if key in _seen:
+                continue
+            _seen.add(key)
+            out += [(("clo", clo[1], bi), c, a, m) for bi, c, a, m in ch.deep_calls_mut(_seen)]
+        return out
+
+    def deep_calls(self):
+        return [(bi, c, a) for bi, c, a, m in self.deep_calls_mut()]
+
+    # -- loops over a literal array of tagged tuples, `for (kind, x) in [(A, xa), (B, xb)] { .. match kind
+    #    {A => f(x), B => g(x)} }`: one evaluator per element, with the blocks that the element's tag
+    #    cannot reach pruned, so that `x` is xa where f is called and xb where g is called
+    def literal_arrays_iterated(self):
+        arrs = []
+        for bi, c, a, m in self.calls_mut():
+            for t in a:
+                contains(t, lambda y: arrs.append(y) if (isinstance(y, tuple) and y[:2] == ("agg", "array")
+                                                         and len(y[2]) >= 2) else False)
+        seen = []
+        for x in arrs:
+            if x not in seen:
+                seen.append(x)
+        return seen
+
+    def specialised(self):
+        arrs = self.literal_arrays_iterated()
+        if len(arrs) != 1 or self.choice:
+            return [self]
+        arr = arrs[0]
+        out = []
+        for j in range(len(arr[2])):
+            probe = Sym(self.body, self.roles, crate=self.crate, allowed=self._allowed, depth=self.depth,
+                        choice={arr: j})
+            allowed = probe.prune()
+            out.append(Sym(self.body, self.roles, crate=self.crate, allowed=allowed, depth=self.depth,
+                           choice={arr: j}))
+        return out
+
+    def prune(self):
+        """Blocks reachable from the entry when every switch on the discriminant of a value that this
+        evaluator knows to be a particular enum variant takes that variant's edge."""
+        seen = set()
+        work = [0]
+        base = set(self.allowed_blocks())
+        while work:
+            b = work.pop()
+            if b in seen or b < 0 or b >= len(self.blocks) or self.blocks[b]["cleanup"] or b not in base:
+                continue
+            seen.add(b)
+            t = self.blocks[b]["term"]
+            k = t["k"]
+            if k == "switch":
+                op = self.operand(t["d"])
+                idx = None
+                if op[0] == "discr" and op[1][0] == "agg":
+                    idx = self.variant_index(op[1][1])
+                if idx is not None:
+                    arms = dict(t["arms"])
+                    work.append(arms[idx] if idx in arms else t["else"])
+                else:
+                    work.extend(tg for _, tg in t["arms"])
+                    work.append(t["else"])
+            elif k == "goto":
+                work.append(t["t"])
+            elif k in ("call", "assert", "drop"):
+                if t.get("t") is not None:
+                    work.append(t["t"])
+        return seen
 
     def apply(self, clo, arg):
         """Result of calling closure term `clo` on `arg` (the closure's body evaluated symbolically)."""
@@ -245,7 +425,34 @@ def project(base, path):
             return base
     if base[0] == "bin" and path[0] == ("f", 0):
         return project(base, path[1:])     # (value, overflowed).0 of a checked operation
+    if len(base) == 4 and base[0] == "call" and base[1].endswith("::from_residual") and \
+            path[0] in (("as", "Some"), ("as", "Ok")):
+        return ("nothing",)         # the early return of `?` carries no payload
+    if len(base) == 4 and base[0] == "call" and base[1].endswith("Try>::branch") and base[3] and \
+            len(path) >= 2 and path[0] == ("as", "Continue") and path[1] == ("f", 0):
+        # `x?`: the continuing value of Try::branch(x) is x's payload (Some / Ok)
+        inner = base[3][0]
+        for v in ("Some", "Ok"):
+            r = project(inner, (("as", v), ("f", 0)) + tuple(path[2:]))
+            if r != ("nothing",) and not (r[0] == "path" and r[2][:1] == (("as", v),) and inner[0] == "agg"):
+                return r
+        return project(inner, (("as", "Some"), ("f", 0)) + tuple(path[2:]))
     return ("path", base, tuple(path))
+
+
+def subst(t, old, new):
+    """t with every occurrence of subterm `old` replaced by `new`, projections re-folded."""
+    if t == old:
+        return new
+    if isinstance(t, tuple):
+        if len(t) == 3 and t[0] == "path":
+            return project(subst(t[1], old, new), t[2])
+        if len(t) == 2 and t[0] == "phi":
+            return phi([subst(x, old, new) for x in t[1]])
+        return tuple(subst(x, old, new) if isinstance(x, (tuple, frozenset)) else x for x in t)
+    if isinstance(t, frozenset):
+        return frozenset(subst(x, old, new) for x in t)
+    return t
 
 
 def _has_loop(t):
@@ -462,8 +669,12 @@ def check_rthompson(ctx, prog):
     # the function that contains the dispatch: add_re itself, or a private worker it delegates to
     # (inlined here once; its recursive calls remain calls)
     rec_names = {"regex_to_nfa::add_re"} | set(body.get("inlined") or ())
-    if not ctx.ob("R-THOMPSON", "add_re dispatches on the variant of `re`", entries is not None,
-                  key="R-THOMPSON:dispatch", where=body["span"]):
+    if entries is None:
+        # add_re is not written as a structural recursion on `re` (e.g. an explicit work stack): the
+        # per-operator templates cannot be read off; operators are decided by the ops witnesses
+        ctx.notes.append("R-THOMPSON: add_re does not dispatch on its `re` parameter (not a structural recursion); "
+                         "the regex -> NFA stage is decided by the ops / prec / mix witness families only")
+        check_add_regex(ctx, lex)
         return
     handled = 0
     templates = {}
@@ -517,6 +728,11 @@ def check_rthompson(ctx, prog):
             if ok:
                 m = builder[0][2][2]
                 if vname == "Diff":
+                    while m[0] == "call" and (m[1].endswith("::unwrap_or_else") or m[1].endswith("::expect")
+                                              or m[1].endswith("::unwrap")) and m[3]:
+                        m = m[3][0]       # `regex_to_range_map(..)` may report 'not a class' by value
+                    if m[0] == "path" and m[2] in ((("as", "Ok"), ("f", 0)), (("as", "Some"), ("f", 0))):
+                        m = m[1]
                     good = m[0] == "call" and m[1] == "regex_to_nfa::regex_to_range_map" and \
                         m[3] == (("param", "bindings"), ("param", "re"))
                     ctx.ob("R-THOMPSON", "Diff: the class is regex_to_range_map(bindings, re) of the whole "
@@ -915,23 +1131,38 @@ def check_rclassdispatch(ctx, prog):
     blocks = sym.blocks
 
     def returned(idx):
-        """terms assigned to the return place inside the arm"""
-        out = []
-        for bi in private[idx]:
-            for st in blocks[bi]["st"]:
-                if "lhs" in st and st["lhs"]["l"] == 0 and not st["lhs"]["p"]:
-                    rv = st["rv"]
-                    if rv["k"] == "use":
-                        out.append(sym.operand(rv["o"]))
-            t = blocks[bi]["term"]
-            if t["k"] == "call" and t["dest"]["l"] == 0 and not t["dest"]["p"]:
-                c = norm_path(t.get("resp") or t["f"].get("path")) or "?"
-                out.append(("call", c, bi, tuple(sym.operand(a) for a in t["args"])))
-        return out
+        """terms assigned to the return place inside the arm (the evaluator is restricted to the arm)"""
+        t = sym.local(0)
+        if t[0] == "undef":
+            return []
+        return list(t[1]) if t[0] == "phi" else [t]
+
+    def unq(term):
+        """x for `x?` / `x.unwrap()`-style payload paths of a call result"""
+        if term[0] == "path" and term[2] in ((("as", "Ok"), ("f", 0)), (("as", "Some"), ("f", 0))) and \
+                term[1][0] == "call":
+            return term[1]
+        return term
 
     def rec_on(term, variant, i):
+        term = unq(term)
         return term[0] == "call" and term[1] == "regex_to_nfa::regex_to_range_map" and \
             term[3][0] == ("param", "bindings") and sub_of(term[3][1], variant) == i
+
+    def classify_returns(ret):
+        """(class terms, error returns, propagated errors) among what the arm returns: the function may
+        return the class directly or wrapped in Ok / Some, and signal 'not a class' by Err / None"""
+        oks, errs, props = [], [], []
+        for r in ret:
+            if r[0] == "agg" and r[1] in ("adt:std::result::Result:Ok", "adt:std::option::Option:Some") and r[2]:
+                oks.append(r[2][0])
+            elif r[0] == "agg" and r[1] in ("adt:std::result::Result:Err", "adt:std::option::Option:None"):
+                errs.append(r)
+            elif r[0] == "call" and r[1].endswith("::from_residual"):
+                props.append(r)
+            else:
+                oks.append(r)
+        return oks, errs, props
 
     def is_new_map(term):
         return term[0] == "call" and term[1].endswith("RangeMap::new")
@@ -940,6 +1171,7 @@ def check_rclassdispatch(ctx, prog):
         return term == want
 
     handled = 0
+    uses_error_value = []
     for idx, vname in enumerate(variants):
         if idx not in entries:
             continue
@@ -951,16 +1183,22 @@ def check_rclassdispatch(ctx, prog):
         muts = [(bi, c, a) for bi, c, a, t in calls if c.startswith("range_map::RangeMap::") and
                 c.rsplit("::", 1)[-1] in ("insert", "insert_ranges", "remove_ranges")]
         diverges = any(c.endswith("panic_fmt") or "panic" in c for bi, c, a, t in calls)
+        oks, errs, props = classify_returns(ret)
         if vname in ("String", "ZeroOrMore", "OneOrMore", "ZeroOrOne", "Concat", "EndOfInput"):
-            ctx.ob("R-CLASS", "%s is rejected inside a class expression" % vname, diverges and not ret,
-                   key=key + ":reject", where=where)
+            rejected = (diverges and not ret) or (bool(errs) and not oks)
+            if errs and not oks:
+                uses_error_value.append(vname)
+            ctx.ob("R-CLASS", "%s is rejected inside a class expression (the arm panics, or returns an error "
+                   "value and no class)" % vname, rejected, key=key + ":reject", where=where,
+                   detail=[show(r)[:120] for r in ret])
             handled += 1
             continue
-        ctx.ob("R-CLASS", "%s: the arm returns a class" % vname, len(ret) == 1 and not diverges,
+        ctx.ob("R-CLASS", "%s: the arm returns a class" % vname, len(oks) == 1 and not errs and
+               (not diverges or vname in ("Var", "Builtin")),
                key=key + ":returns", where=where, detail=[show(r) for r in ret])
-        if len(ret) != 1:
+        if len(oks) != 1:
             continue
-        r = ret[0]
+        r = oks[0]
         handled += 1
         if vname in ("Or", "Diff"):
             op = "insert_ranges" if vname == "Or" else "remove_ranges"
@@ -1031,6 +1269,25 @@ def check_rclassdispatch(ctx, prog):
         else:
             ctx.ob("R-CLASS", "variant %s of ast::Regex is known to the rule" % vname, False, key=key + ":unknown",
                    where=where)
+    if uses_error_value:
+        # 'not a class' is reported by value: the caller (add_re's `#` arm) must turn it into a rejection
+        ab = lex.body("regex_to_nfa::add_re")
+        ok = False
+        if ab is not None:
+            asym = Sym(ab, ROLES_ADD_RE, crate=lex)
+            for bi, c, a in asym.all_calls():
+                if a and contains(a[0], lambda y: _is_call(y, "regex_to_nfa::regex_to_range_map")):
+                    if c.endswith("::expect") or c.endswith("::unwrap"):
+                        ok = True
+                    if c.endswith("::unwrap_or_else") and len(a) == 2 and a[1][0] == "agg" and \
+                            a[1][1].startswith("closure:"):
+                        from .rules_src import diverges_after
+                        cb = lex.body(norm_path(a[1][1][len("closure:"):]))
+                        if cb is not None and diverges_after(cb["mir"]["blocks"], 0):
+                            ok = True
+        ctx.ob("R-CLASS", "a `#` operand that is not a class is rejected: add_re panics on the error value that "
+               "regex_to_range_map returns for %s" % ", ".join(uses_error_value), ok, key="R-CLASS:reject:caller",
+               where=body["span"])
     ctx.floor("variants of ast::Regex handled by regex_to_range_map", handled, 13)
 
 
@@ -1186,7 +1443,7 @@ def lookup_or_register(calls, tgt, dfa):
                 maps.add(f[3][0])
                 keys.add(strip_clone(f[3][1]))
             continue
-        if _is_call(alt, "DFA::new_state") and alt[3][0] == dfa:
+        if (_is_call(alt, "DFA::new_state") and alt[3][0] == dfa) or alt[0] == "path":
             reg = False
             for bi, c, a in calls:
                 if c.endswith("HashMap::insert") and len(a) == 3 and a[2] == alt:
@@ -1217,15 +1474,25 @@ def own_value_from(term, X, field):
 
 
 def check_rsubset(ctx, prog):
-    """nfa_to_dfa: every DFA transition is added from the DFA state of the popped set, to the DFA state
-    registered for the epsilon-closure of the collected targets, and that same closure is queued for
-    processing; labels and target sets come from the same item."""
+    """nfa_to_dfa pairing rule, evaluated once per specialisation of the body (one, unless the body
+    iterates a literal array of tagged tuples: then once per element, see Sym.specialised)."""
     lex = prog.crate(LEX)
     b = lex.body("nfa_to_dfa::nfa_to_dfa")
     if not ctx.ob("R-SUBSET", "nfa_to_dfa found", b is not None, key="R-SUBSET:anchor"):
         return
     sym = Sym(b, {1: "nfa"}, crate=lex)
-    calls = _calls(sym)
+    sps = sym.specialised()
+    seen_kinds = {}
+    total_sites = set()
+    for sp in sps:
+        _rsubset_on(ctx, lex, b, sp, sp.deep_calls(), len(sps) > 1, seen_kinds, total_sites)
+    for kind in ("char", "any", "end-of-input", "range"):
+        ctx.ob("R-SUBSET", "%s transitions are added at one place" % kind, len(seen_kinds.get(kind, ())) == 1,
+               key="R-SUBSET:%s:sites" % kind, where=b["span"], detail=sorted(map(str, seen_kinds.get(kind, ()))))
+    ctx.floor("places in nfa_to_dfa where DFA transitions are added", len(total_sites), 4)
+
+
+def _rsubset_on(ctx, lex, b, sym, calls, multi, seen_kinds, total_sites):
     where = b["span"]
     pops = [x for x in calls if x[1] == "std::vec::Vec::pop"]
     if not ctx.ob("R-SUBSET", "one work list is popped", len(pops) == 1, key="R-SUBSET:pop", where=where):
@@ -1240,13 +1507,32 @@ def check_rsubset(ctx, prog):
 
     def from_pop(t):
         return contains(t, lambda x: _is_call(x, "Vec::pop") and x[3][0] == W)
+    pushes_W_raw = [x[2][1] for x in calls if x[1] == "std::vec::Vec::push" and x[2][0] == W]
+    pushes_W = [strip_clone(x) for x in pushes_W_raw]
     # current DFA state: looked up in the state map under the popped set, or created and registered
     alts = list(cur[1]) if cur[0] == "phi" else [cur]
     looked = [a for a in alts if contains(a, lambda x: _is_call(x, "HashMap::get") and from_pop(x[3][1]))]
     created = [a for a in alts if _is_call(a, "DFA::new_state")]
-    ctx.ob("R-SUBSET", "the state being filled in is the one the state map holds for the popped set, or a new "
-           "state", len(looked) >= 1 and len(looked) + len(created) == len(alts), key="R-SUBSET:current",
-           where=where, detail=show(cur))
+    carried = cur[0] == "path" and from_pop(cur) and not looked
+    if carried:
+        # the work item carries the DFA state next to its set of NFA states: every queued item must pair
+        # a set with the state registered for that set
+        ok_pairs = bool(pushes_W_raw)
+        for pv in pushes_W_raw:
+            ops = pv[2] if pv[0] == "agg" else ()
+            pair_ok = False
+            for st_op in ops:
+                lr = lookup_or_register(calls, st_op, dfa)
+                if lr is not None and any(strip_clone(o) == lr[1] for o in ops if o is not st_op):
+                    pair_ok = True
+            ok_pairs = ok_pairs and pair_ok
+        ctx.ob("R-SUBSET", "the state being filled in travels with its set: every queued item pairs a set of NFA "
+               "states with the DFA state registered for that set", ok_pairs, key="R-SUBSET:current",
+               where=where, detail=[show(x)[:200] for x in pushes_W_raw])
+    else:
+        ctx.ob("R-SUBSET", "the state being filled in is the one the state map holds for the popped set, or a "
+               "new state", len(looked) >= 1 and len(looked) + len(created) == len(alts),
+               key="R-SUBSET:current", where=where, detail=show(cur))
     state_map = None
     for a in looked:
         def grab(x):
@@ -1265,7 +1551,6 @@ def check_rsubset(ctx, prog):
     ctx.ob("R-SUBSET", "the accepting value comes from NFA::get_accepting_state of a member of the popped set",
            contains(acc_val, lambda x: _is_call(x, "NFA::get_accepting_state") and x[3][0] == ("param", "nfa")
                     and from_pop(x[3][1])), key="R-SUBSET:accepting", where=where, detail=show(acc_val))
-    pushes_W = [strip_clone(x[2][1]) for x in calls if x[1] == "std::vec::Vec::push" and x[2][0] == W]
 
     def check_target(kind, tgt, detail_where):
         lr = lookup_or_register(calls, tgt, dfa)
@@ -1280,7 +1565,8 @@ def check_rsubset(ctx, prog):
         ctx.ob("R-SUBSET", "%s: that set is the empty-transition closure (compute_state_closure) of the collected "
                "targets" % kind, X is not None, key="R-SUBSET:%s:closure" % kind, where=where, detail=show(C))
         ctx.ob("R-SUBSET", "%s: the same closure is pushed on the work list, so the target state gets its own "
-               "transitions and accepting value" % kind, C in pushes_W, key="R-SUBSET:%s:queued" % kind,
+               "transitions and accepting value" % kind,
+               any(contains(p_, lambda y: y == C) for p_ in pushes_W), key="R-SUBSET:%s:queued" % kind,
                where=where, detail={"closure": show(C), "pushed": [show(p)[:120] for p in pushes_W]})
         return X
 
@@ -1288,10 +1574,10 @@ def check_rsubset(ctx, prog):
     for meth, kind in (("add_char_transition", "char"), ("set_any_transition", "any"),
                        ("set_end_of_input_transition", "end-of-input")):
         sites = [x for x in calls if x[1].endswith("DFA::" + meth)]
-        ctx.ob("R-SUBSET", "%s transitions are added at one place" % kind, len(sites) == 1,
-               key="R-SUBSET:%s:sites" % kind, where=where)
         for bi, c, a in sites:
             n_sites += 1
+            seen_kinds.setdefault(kind, set()).add(bi)
+            total_sites.add((kind, bi))
             ctx.ob("R-SUBSET", "%s: the transition leaves the state being filled in" % kind,
                    a[0] == dfa and a[1] == cur, key="R-SUBSET:%s:source" % kind, where=where, detail=show(a[1]))
             X = check_target(kind, a[-1], bi)
@@ -1304,9 +1590,10 @@ def check_rsubset(ctx, prog):
                        detail=[show(label), show(X)])
     # ranges: Range { start, end, value } pushed to a vector handed to set_range_transitions
     srt = [x for x in calls if x[1].endswith("DFA::set_range_transitions")]
-    ctx.ob("R-SUBSET", "range transitions are set at one place", len(srt) == 1, key="R-SUBSET:range:sites", where=where)
     for bi, c, a in srt:
         n_sites += 1
+        seen_kinds.setdefault("range", set()).add(bi)
+        total_sites.add(("range", bi))
         ctx.ob("R-SUBSET", "range: the transitions are set on the state being filled in", a[0] == dfa and a[1] == cur,
                key="R-SUBSET:range:source", where=where)
         m = a[2]
@@ -1316,7 +1603,8 @@ def check_rsubset(ctx, prog):
         if not ok_ctor:
             continue
         V = m[3][0]
-        items = [x[2][1] for x in calls if x[1] == "std::vec::Vec::push" and x[2][0] == V]
+        items = [x[2][1] for x in calls if x[1] == "std::vec::Vec::push" and x[2][0] == V] + \
+            [sym.elem(x[2][1]) for x in calls if x[1].endswith("Extend>::extend") and x[2][0] == V]
         ctx.ob("R-SUBSET", "range: ranges are pushed to that vector at one place", len(items) == 1,
                key="R-SUBSET:range:push", where=where)
         for it in items:
@@ -1357,7 +1645,6 @@ def check_rsubset(ctx, prog):
             ctx.ob("R-SUBSET", "range: start and end (possibly clamped to scalar values) are the start and the end, "
                    "in that order, of the same collected range whose targets are used", ok,
                    key="R-SUBSET:range:item", where=where, detail=det)
-    ctx.floor("places in nfa_to_dfa where DFA transitions are added", n_sites, 4)
 
 
 # --------------------------------------------------------------------------- subset construction provenance
@@ -1371,7 +1658,12 @@ def subterms(t, pred, out):
 
 
 def is_default(t):
-    return isinstance(t, tuple) and len(t) == 4 and t[0] == "call" and t[1].endswith("Default>::default")
+    """a fresh (default-constructed) collection, or a field of a fresh default-constructed struct of
+    collections"""
+    if isinstance(t, tuple) and len(t) == 3 and t[0] == "path" and all(p[0] == "f" for p in t[2]):
+        t = t[1]
+    return isinstance(t, tuple) and len(t) == 4 and t[0] == "call" and (
+        t[1].endswith("Default>::default") or t[1].endswith("::new") or t[1].endswith("::default"))
 
 
 def unguard(t):
@@ -1407,20 +1699,13 @@ def check_rprov(ctx, prog):
     locals_ = b["mir"]["locals"]
     where = b["span"]
     calls = []
-    for bi, bb in enumerate(blocks):
-        if bb["cleanup"]:
-            continue
-        t = bb["term"]
-        if t["k"] == "call":
-            c = norm_path(t.get("resp") or t["f"].get("path")) or "?"
-            a0mut = False
-            if t["args"]:
-                q = t["args"][0].get("move") or t["args"][0].get("copy")
-                if q is not None and not q["p"]:
-                    ty = locals_[q["l"]]
-                    ty = ty.get("ty") if isinstance(ty, dict) else ty
-                    a0mut = str(ty).startswith("&mut")
-            calls.append((bi, c, tuple(sym.operand(a) for a in t["args"]), a0mut))
+    sp_calls = []
+    for sp in sym.specialised():
+        cl = sp.deep_calls_mut()
+        sp_calls.append(cl)
+        for x in cl:
+            if x not in calls:
+                calls.append(x)
 
     def member(t):
         """a member of the popped set"""
@@ -1435,13 +1720,17 @@ def check_rprov(ctx, prog):
     coll = {}
     for meth, kind in (("set_any_transition", "any"), ("set_end_of_input_transition", "eoi"),
                        ("add_char_transition", "char")):
-        sites = [x for x in calls if x[1].endswith("DFA::" + meth)]
-        if len(sites) != 1:
+        found = [(cl, x) for cl in sp_calls for x in cl if x[1].endswith("DFA::" + meth)]
+        if len({x[0] for cl, x in found}) != 1:
             ctx.ob("R-PROV", "one %s site" % kind, False, key="R-PROV:%s:site" % kind, where=where)
             return
-        tgt = sites[0][2][-1]
-        lr = lookup_or_register([(x[0], x[1], x[2]) for x in calls], tgt, sites[0][2][0])
-        X = closure_of(lr[1]) if lr is not None else None
+        # (when the body was specialised per element of a literal array, a site that every element
+        # reaches must yield the same target set in all of them)
+        Xs = set()
+        for cl, x in found:
+            lr = lookup_or_register([(y[0], y[1], y[2]) for y in cl], x[2][-1], x[2][0])
+            Xs.add(closure_of(lr[1]) if lr is not None else None)
+        X = next(iter(Xs)) if len(Xs) == 1 else None
         if X is None:
             ctx.ob("R-PROV", "%s target is a closure" % kind, False, key="R-PROV:%s:closure" % kind, where=where)
             return
@@ -1461,12 +1750,16 @@ def check_rprov(ctx, prog):
     # range map: from the Range aggregate pushed
     D_range = None
     X_range = None
-    for bi, c, a, m in calls:
-        if c == "std::vec::Vec::push" and a[1][0] == "agg" and a[1][1].startswith("adt:range_map::Range"):
-            v = a[1][2][2]
-            dfa_t = [x for x in calls if x[1].endswith("DFA::set_range_transitions")]
-            lr = lookup_or_register([(x[0], x[1], x[2]) for x in calls], v, dfa_t[0][2][0]) if dfa_t else None
-            X_range = closure_of(lr[1]) if lr is not None else None
+    cl0 = sp_calls[0]
+    range_items = [a[1] for bi, c, a, m in cl0 if c == "std::vec::Vec::push"] + \
+        [sym.elem(a[1]) for bi, c, a, m in cl0 if c.endswith("Extend>::extend") and len(a) == 2]
+    for it_ in range_items:
+        for alt_ in (it_[1] if it_[0] == "phi" else [it_]):
+            if alt_[0] == "agg" and alt_[1].startswith("adt:range_map::Range"):
+                v = alt_[2][2]
+                dfa_t = [x for x in cl0 if x[1].endswith("DFA::set_range_transitions")]
+                lr = lookup_or_register([(x[0], x[1], x[2]) for x in cl0], v, dfa_t[0][2][0]) if dfa_t else None
+                X_range = closure_of(lr[1]) if lr is not None else None
     ri = item_of(X_range) if X_range is not None else None
     ok = ri is not None and is_default(ri[0]) and ri[1] == (("f", 2),)
     ctx.ob("R-PROV", "range targets are the values of a fresh range map iterated piece by piece", ok,
@@ -1558,8 +1851,9 @@ def check_rprov(ctx, prog):
                 for r_ in rs:
                     R = ("path", r_[1], r_[2][:-1]) if len(r_[2]) > 1 else r_[1]
                     guards = [gb for gb, gc, ga, gm in calls if gc.endswith("Range::contains") and unguard(ga[0]) == unguard(R)
-                              and ga[1] == CH]
-                    guarded = guarded or any(true_edge_dominates(blocks, dom, g, bi) for g in guards)
+                              and ga[1] == CH and isinstance(gb, int)]
+                    guarded = guarded or (isinstance(bi, int) and
+                                          any(true_edge_dominates(blocks, dom, g, bi) for g in guards))
                     # or the range comes out of `.filter(|r| r.contains(char))`
                     if R[0] == "guarded" and _is_call(R[1], "Range::contains") and unguard(R[1][3][0]) == unguard(R) \
                             and R[1][3][1] == CH:
@@ -1577,12 +1871,9 @@ def check_rprov(ctx, prog):
                 ok = all(x is not None for x in its) and iv is not None and its[0][0] == its[1][0] == iv[0] and \
                     (its[0][1], its[1][1], iv[1]) == ((("f", 0),), (("f", 1),), (("f", 2),))
                 cb = None
-                targ = blocks[bi]["term"]["args"][4]
-                q = targ.get("move") or targ.get("copy")
-                if q is not None:
-                    for kind_, d_, _b in sym.defs.get(q["l"], []):
-                        if kind_ == "st" and d_["k"] == "agg" and d_["kind"].get("agg") == "closure":
-                            cb = lex.body(norm_path(d_["kind"]["def"]))
+                clo_t = a[4] if len(a) > 4 else None
+                if clo_t is not None and clo_t[0] == "agg" and clo_t[1].startswith("closure:"):
+                    cb = lex.body(norm_path(clo_t[1][len("closure:"):]))
                 okm = False
                 if cb is not None:
                     cs = Sym(cb, {1: "env", 2: "a", 3: "b"})
@@ -1598,10 +1889,10 @@ def check_rprov(ctx, prog):
         n_mut += 1
         ctx.ob("R-PROV", "%s receive %s" % (what, rule), ok,
                key=key + ":source:%s:%s" % ("piece" if stage2 else "collect", c.rsplit("::", 1)[-1]),
-               where=blocks[bi].get("span"),
+               where=blocks[bi].get("span") if isinstance(bi, int) else where,
                detail={"call": c, "target": show(a[0])[:200], "NFA accessors feeding the inserted value": sorted(acc),
                        "collected sets feeding it": sorted(names[x] for x in cols)})
-    ctx.floor("places where the subset construction adds states to a target set", n_mut, 7)
+    ctx.floor("places where the subset construction adds states to a target set", n_mut, 4)
 
 
 
@@ -1760,13 +2051,21 @@ def check_rshift(ctx, prog):
     guarded = [(bi, a) for bi, c, a in calls if c == "std::vec::Vec::push"
                and any(true_edge_dominates(blocks, dom, h, bi) for h in hn)]
     lists = {a[0] for bi, a in guarded}
-    if not ctx.ob("R-SHIFT", "one list collects the states that have no transitions (the removed states)",
-                  len(lists) == 1, key="R-SHIFT:list", where=where, detail=[show(x) for x in lists]):
+    if not ctx.ob("R-SHIFT", "the states that have no transitions (the removed states) are collected in a list",
+                  len(lists) >= 1, key="R-SHIFT:list", where=where, detail=[show(x) for x in lists]):
         return
-    ES = next(iter(lists))
+    # (several parallel lists may be filled under the same test: indices in one, accepting values in
+    # another; a table that is also filled in the other branch is not a list of removed states)
+    def all_guarded(lst):
+        return all(any(true_edge_dominates(blocks, dom, h, bi) for h in hn)
+                   for bi, c, a in calls if c == "std::vec::Vec::push" and a[0] == lst)
+    ES_all = {x for x in lists if all_guarded(x)}
+    if not ctx.ob("R-SHIFT", "a list receives exactly the states without transitions", bool(ES_all),
+                  key="R-SHIFT:list", where=where, detail=[show(x) for x in lists]):
+        return
     ok1 = True
     for bi, c, a in calls:
-        if c == "std::vec::Vec::push" and a[0] == ES:
+        if c == "std::vec::Vec::push" and a[0] in ES_all:
             ok1 = ok1 and any(true_edge_dominates(blocks, dom, h, bi) for h in hn)
             init_ok = False
             for bj, bb in enumerate(blocks):
@@ -1788,9 +2087,10 @@ def check_rshift(ctx, prog):
                   "every later entry index")
 
     def searched(t):
-        """t is computed by a call that looks into the removed-state list"""
-        return contains(t, lambda y: isinstance(y, tuple) and len(y) == 4 and y[0] == "call" and y[3]
-                        and contains(y[3][0], lambda z: z == ES))
+        """t is computed from the removed-state list(s): by a call on one of them (a search, its length at
+        the time a state was classified), possibly through a table that was filled with such values"""
+        return deep_has(sym, t, lambda y: isinstance(y, tuple) and len(y) == 4 and y[0] == "call" and y[3]
+                        and contains(y[3][0], lambda z: z in ES_all))
     subs_body = []
     for bi, bb in enumerate(blocks):
         if bb["cleanup"]:
@@ -1807,6 +2107,15 @@ def check_rshift(ctx, prog):
         ctx.ob("R-SHIFT", "a state index is lowered by an amount found by searching the list of removed states",
                searched(b_), key="R-SHIFT:amount", where=w, detail=[show(a_)[:200], show(b_)[:300]])
     entry = [x for x in subs_body if contains(x[0], lambda y: y == ("param", "dfa_state_indices"))]
+    if not entry:
+        # the caller may do it, with what `simplify` hands back (e.g. a `Renumbering` value)
+        lx = lex.body("lexer")
+        if lx is not None:
+            lsym = Sym(lx, {1: "input"}, crate=lex)
+            for a_, b_, w in collect_bins(lsym, "Sub"):
+                if contains(b_, lambda y: _is_call(y, "simplify::simplify")) and \
+                        contains(a_, lambda y: isinstance(y, tuple) and len(y) == 2 and y[0] == "elem"):
+                    entry.append((a_, b_, w))
     ctx.ob("R-SHIFT", "rule-set entry indices (the values of the entry map) are renumbered that way",
            bool(entry), key="R-SHIFT:entries", where=where,
            detail=[[show(a_)[:160], show(b_)[:200]] for a_, b_, w in subs_body])
